@@ -307,7 +307,21 @@ class Runtime:
                 self._mutate_globals(ns)
                 mutated = True
             for k, f in fns:
-                for tag, call in (("fp", f.to_function_proto), ("mp", f.to_model_proto)):
+                calls = (("fp", f.to_function_proto), ("mp", f.to_model_proto))
+                if op.get("mp_first"):
+                    calls = calls[::-1]   # the model proto is asked for before the function proto ever was
+                if r == 1 and op.get("mp_kwargs"):
+                    # calls WITH arguments in between (their results are not the subject): later default calls must not care
+                    from onnxscript.onnx_types import FLOAT
+
+                    for kw in ({"io_types": FLOAT}, {"opset_version": 17}, {"ir_version": 8}, {"opset_version": 21, "io_types": FLOAT}):
+                        try:
+                            f.to_model_proto(**kw)
+                        except InjectedFault:
+                            raise
+                        except Exception:  # noqa: BLE001
+                            pass
+                for tag, call in calls:
                     try:
                         d = _sha(call().SerializeToString(deterministic=True))
                     except InjectedFault:
@@ -328,8 +342,24 @@ class Runtime:
         import onnxscript
         from onnxscript import values
 
+        fn_names = [k for k, v in ns.items() if isinstance(v, onnxscript.OnnxFunction)]
+        if len(fn_names) >= 3:
+            # rebind the names of helper functions to *other* functions (all but the last-defined one, the entry function)
+            helpers = fn_names[:-1]
+            objs = [ns[k] for k in helpers]
+            for k, o in zip(helpers, objs[1:] + objs[:1]):
+                ns[k] = o
         for k, v in list(ns.items()):
             if k.startswith("__") or isinstance(v, onnxscript.OnnxFunction):
+                continue
+            if isinstance(v, values.Opset) and type(v) is not values.Opset:
+                # an alias of a standard opset (e.g. `op`): rebind it to another version
+                try:
+                    import onnxscript.onnx_opset as oo
+
+                    ns[k] = oo.opset13 if v.version != 13 else oo.opset14
+                except Exception:  # noqa: BLE001
+                    pass
                 continue
             if isinstance(v, bool):
                 ns[k] = not v
